@@ -78,6 +78,10 @@ type ChunkSpec struct {
 	// Delay > 0: every Delay-th Read takes DelaySec seconds of (simulated) time
 	// before it returns - a slow device. The bubble's clock is fake, so minutes
 	// cost microseconds; a workflow may not give up on a slow but healthy source.
+	// Reentrant: on its first Read the device runs a detection of its own (the
+	// named workflow, on a private healthy source) before it delivers - a
+	// generator that self-checks its raw output
+	Reentrant string `json:"reentrant,omitempty"`
 	Delay    int `json:"delay,omitempty"`
 	DelaySec int `json:"delay_sec,omitempty"`
 }
@@ -99,6 +103,7 @@ type ItemDirective struct {
 	Bins      []int `json:"bins,omitempty"` // Q histogram over ten bins (sums to s); nil: flat
 	Edge      bool  `json:"edge,omitempty"` // put Q values exactly on the lower bin edge (and 1.0 in the last bin)
 	FailHigh  bool  `json:"fail_high,omitempty"` // two-sided items: failing samples have Q near 1 (bin 9) instead of near 0
+	P2Only    bool  `json:"p2_only,omitempty"`    // overlapping item: every failing sample fails through P2 only (Q1 stays an ordinary mid-range value)
 	AlphaEdge int   `json:"alpha_edge,omitempty"` // this many passing samples of bin 0 have P exactly equal to alpha (they pass: P >= alpha)
 }
 
